@@ -65,7 +65,10 @@ def suite(wt, junit):
         if node:
             for _ in range(4):
                 time.sleep(3)
-                r = sh(f"cd {wt} && PYTHONPATH={wt} /venv/bin/python -m pytest -q -p no:cacheprovider --timeout=900 '{node}'")
+                try:
+                    r = sh(f"cd {wt} && PYTHONPATH={wt} timeout -k 5 300 /venv/bin/python -m pytest -q -p no:cacheprovider --timeout=120 '{node}'")
+                except Exception:  # noqa: BLE001
+                    continue
                 if r.returncode == 0:
                     ok = True
                     break
